@@ -803,9 +803,14 @@ impl RHost {
         for f in a.take_faults() {
             self.problems.push(("alloc:resource-world".into(), f));
         }
-        if a.live_count() == 0 {
-            a.reset();
+        // the host reclaims what the guest leaked, so that every history starts from an empty arena
+        for (p, _) in a.live() {
+            a.free(p);
         }
+        a.take_faults();
+        a.take_freed();
+        a.take_allocated();
+        a.reset();
     }
 }
 
@@ -854,7 +859,8 @@ pub fn child_run(b: &ResBuild, hists: &[Vec<Act>], skip: &BTreeSet<usize>, progr
     }));
     unsafe { RHOST = h as *mut RHost };
     install_signal_handlers(r_on_signal);
-    let mut out: Vec<Value> = Vec::new();
+    // per problem key: (first = shortest history index, message, count)
+    let mut out: BTreeMap<String, (usize, String, u64)> = BTreeMap::new();
     let mut outcomes: BTreeSet<String> = BTreeSet::new();
     for (i, hist) in hists.iter().enumerate() {
         if skip.contains(&i) {
@@ -866,9 +872,15 @@ pub fn child_run(b: &ResBuild, hists: &[Vec<Act>], skip: &BTreeSet<usize>, progr
         h.run_history(hist);
         outcomes.insert(format!("calls={} dtors={} problems={}", h.calls - c0, h.dtor_runs_seen - d0, h.problems.len()));
         for (c, m) in &h.problems {
-            out.push(json!([i, c, m]));
+            let e = out.entry(c.clone()).or_insert((i, m.clone(), 0));
+            e.2 += 1;
+            if hist.len() < hists[e.0].len() {
+                e.0 = i;
+                e.1 = m.clone();
+            }
         }
     }
+    let out: Vec<Value> = out.into_iter().map(|(c, (i, m, n))| json!([i, c, m, n])).collect();
     serde_json::to_vec(&json!({"problems": out, "calls": h.calls, "dtor_runs": h.dtor_runs_seen,
                                "imports_missing": missing, "outcomes": outcomes.into_iter().collect::<Vec<_>>()}))
     .unwrap()
